@@ -15,9 +15,12 @@ META = dict(
     level_note="(a),(b),(c) proved for all wf configurations without include declarations; with include_service<> the "
                "mapping is shifted (refuted, known finding); (d) refuted; (e) 'handles reported in discovery responses "
                "are the assigned handles of the attributes they describe' (clause reported_handle) is monitored on the "
-               "implementation and tied, and PROVED for the model for Read By Group Type, Find By Type Value and Find "
-               "Information (all wf configurations without includes, every state, every MTU, well formed requests); "
-               "NOT proved for Read By Type and for malformed request shapes (C04_reported_handles_full stays a Definition)")
+               "implementation and tied, and PROVED for the model for EVERY request (C04_reported_handles_partial: all wf "
+               "configurations without includes and without the marker uuid 0x0001, every state with the connection, "
+               "request bytes < 256; refused requests are shown to get Error Responses), per kind: Read By Group Type, "
+               "Find By Type Value, Find Information at every MTU, Read By Type for min(out_size, MTU) <= 513; NOT "
+               "proved (false in general) for Read By Type above 513 bytes, where the 8 bit size counter can leave a "
+               "single byte of an entry (C04_reported_handles_full stays a Definition)")
 
 
 class C04(AttBase):
